@@ -103,6 +103,48 @@ def location_rules(ctx, P):
         ctx.ob(P + ".at_path.def", f.key, "return", rs == ["darling_core::error::Error::at(self, darling_core::util::path_to_string::path_to_string(a2))"], "returns %s" % rs)
 
 
+def syn_conversion_rules(ctx, P):
+    """`From<darling::Error> for syn::Error`: a single error converts directly, a bundle is flattened
+    (which hands the bundle's span and location to leaves that have none) and every leaf becomes one
+    diagnostic, in order.  Shared with C03 (conversion preserves each leaf's span)."""
+    # ---- From<Error> for syn::Error
+    f = ctx.fn("darling_core::error::<impl core::convert::From<darling_core::error::Error> for syn::error::Error>::from")
+    if f:
+        news = ctx.find_calls(f, r"^syn::error::Error::new")
+        ctx.ob(P + ".single-shape", f.key, "two Error::new sites", len(news) == 2, "%d" % len(news))
+        for blk, t in news:
+            ctx.requires(P + ".single-direct", f, blk, "syn::Error::new", [r"^darling_core::error::Error::len\(a1\)=1$"])
+        fl = ctx.find_calls(f, r"Error::flatten$")
+        comb_deep = ctx.find_calls_deep(f, r"^syn::error::Error::combine$")
+        comb = [(blk, t) for blk, t, owner in comb_deep if owner is f]
+        ctx.ob(P + ".multi-shape", f.key, "flatten + combine", len(fl) == 1 and len(comb_deep) == 1, "%d flatten, %d combine" % (len(fl), len(comb_deep)))
+        for blk, t in fl + [(blk, t) for blk, t, _ in comb_deep]:
+            ctx.requires(P + ".multi-flattens", f, blk, "flatten/combine", [("ne", r"^darling_core::error::Error::len\(a1\)$", 1)])
+        for blk, t, owner in comb_deep:
+            if owner is f:
+                continue
+            # the same accumulation written as `iter.fold(first, |mut acc, next| { acc.combine(next); acc })`
+            folds = [(b2, t2) for b2, t2 in ctx.find_calls(f, r"Iterator(>)?::fold$") if owner.key in ctx.expr(f, t2["args"][2])]
+            args = [ctx.expr(owner, a) for a in t["args"]]
+            crets = ctx.ret_values(owner)
+            ok = len(folds) == 1 and args == ["a2", "a3"] and crets == ["a2"]
+            ctx.ob(P + ".combine-each-leaf", f.key, "fold(first, |acc, next| acc.combine(next))", ok, "fold calls %d, combine%s, closure returns %s" % (len(folds), args, crets))
+            if folds:
+                it = ctx.expr(f, folds[0][1]["args"][0])
+                ctx.ob(P + ".combine-in-loop", f.key, "combine repeated for every remaining leaf", re.search(r"Iterator(>)?::map\(", it) is not None and "flatten(a1)" in it, "fold over %s" % it[:160])
+        if comb:
+            blk, t = comb[0]
+            a1 = ctx.expr(f, t["args"][1])
+            ctx.ob(P + ".combine-each-leaf", f.key, "combine(next leaf)", "Iterator>::next(" in a1 and "as Some).0" in a1, "combines %s" % a1[:140])
+            # combine sits in a loop over the same iterator
+            heads = [h for h in f.normal_blocks() for lab, tb in f.succ_edges(h) if False]
+            inloop = blk in f.reachable(t["target"], False) if t["target"] is not None else False
+            ctx.ob(P + ".combine-in-loop", f.key, "combine repeated for every remaining leaf", inloop, "combine must be inside the loop over the flattened iterator")
+        mp = ctx.find_calls(f, r"Iterator>::map")
+        ok = len(mp) == 1 and "into_iter(darling_core::error::Error::flatten(a1))" in ctx.expr(f, mp[0][1]["args"][0]).replace("<darling_core::error::Error as core::iter::traits::collect::IntoIterator>::", "") and "::from" in ctx.expr(f, mp[0][1]["args"][1])
+        ctx.ob(P + ".one-diagnostic-per-leaf", f.key, "flatten().into_iter().map(syn::Error::from)", ok, "map(%s)" % [[ctx.expr(f, a)[:120] for a in t["args"]] for _, t in mp])
+
+
 def run(ctx):
     # ---- len
     f = ctx.fn(K + "::len")
@@ -151,42 +193,7 @@ def run(ctx):
         # the separator literal " at "
         sep = [ctx.expr(f, a) for blk, t in ctx.find_calls(f, r"fmt::Arguments::<'_>::new") for a in t["args"][:1]]
         ctx.ob("C04.display.separator", f.key, "' at ' literal", any(" at " in s for s in sep), "format pieces: %s" % sep)
-    # ---- From<Error> for syn::Error
-    f = ctx.fn("darling_core::error::<impl core::convert::From<darling_core::error::Error> for syn::error::Error>::from")
-    if f:
-        news = ctx.find_calls(f, r"^syn::error::Error::new")
-        ctx.ob("C04.syn.single-shape", f.key, "two Error::new sites", len(news) == 2, "%d" % len(news))
-        for blk, t in news:
-            ctx.requires("C04.syn.single-direct", f, blk, "syn::Error::new", [r"^darling_core::error::Error::len\(a1\)=1$"])
-        fl = ctx.find_calls(f, r"Error::flatten$")
-        comb_deep = ctx.find_calls_deep(f, r"^syn::error::Error::combine$")
-        comb = [(blk, t) for blk, t, owner in comb_deep if owner is f]
-        ctx.ob("C04.syn.multi-shape", f.key, "flatten + combine", len(fl) == 1 and len(comb_deep) == 1, "%d flatten, %d combine" % (len(fl), len(comb_deep)))
-        for blk, t in fl + [(blk, t) for blk, t, _ in comb_deep]:
-            ctx.requires("C04.syn.multi-flattens", f, blk, "flatten/combine", [("ne", r"^darling_core::error::Error::len\(a1\)$", 1)])
-        for blk, t, owner in comb_deep:
-            if owner is f:
-                continue
-            # the same accumulation written as `iter.fold(first, |mut acc, next| { acc.combine(next); acc })`
-            folds = [(b2, t2) for b2, t2 in ctx.find_calls(f, r"Iterator(>)?::fold$") if owner.key in ctx.expr(f, t2["args"][2])]
-            args = [ctx.expr(owner, a) for a in t["args"]]
-            crets = ctx.ret_values(owner)
-            ok = len(folds) == 1 and args == ["a2", "a3"] and crets == ["a2"]
-            ctx.ob("C04.syn.combine-each-leaf", f.key, "fold(first, |acc, next| acc.combine(next))", ok, "fold calls %d, combine%s, closure returns %s" % (len(folds), args, crets))
-            if folds:
-                it = ctx.expr(f, folds[0][1]["args"][0])
-                ctx.ob("C04.syn.combine-in-loop", f.key, "combine repeated for every remaining leaf", re.search(r"Iterator(>)?::map\(", it) is not None and "flatten(a1)" in it, "fold over %s" % it[:160])
-        if comb:
-            blk, t = comb[0]
-            a1 = ctx.expr(f, t["args"][1])
-            ctx.ob("C04.syn.combine-each-leaf", f.key, "combine(next leaf)", "Iterator>::next(" in a1 and "as Some).0" in a1, "combines %s" % a1[:140])
-            # combine sits in a loop over the same iterator
-            heads = [h for h in f.normal_blocks() for lab, tb in f.succ_edges(h) if False]
-            inloop = blk in f.reachable(t["target"], False) if t["target"] is not None else False
-            ctx.ob("C04.syn.combine-in-loop", f.key, "combine repeated for every remaining leaf", inloop, "combine must be inside the loop over the flattened iterator")
-        mp = ctx.find_calls(f, r"Iterator>::map")
-        ok = len(mp) == 1 and "into_iter(darling_core::error::Error::flatten(a1))" in ctx.expr(f, mp[0][1]["args"][0]).replace("<darling_core::error::Error as core::iter::traits::collect::IntoIterator>::", "") and "::from" in ctx.expr(f, mp[0][1]["args"][1])
-        ctx.ob("C04.syn.one-diagnostic-per-leaf", f.key, "flatten().into_iter().map(syn::Error::from)", ok, "map(%s)" % [[ctx.expr(f, a)[:120] for a in t["args"]] for _, t in mp])
+    syn_conversion_rules(ctx, "C04.syn")
     # ---- IntoIterator: one level
     f = ctx.fn("<darling_core::error::Error as core::iter::traits::collect::IntoIterator>::into_iter")
     if f:
